@@ -341,8 +341,13 @@ fn greedy<F: FnMut(&mut Parser, TokenSet) -> bool>(
         if !f(parser, recovery) {
             return false;
         }
-        while f(parser, recovery) {
-            continue;
+        // an item parser may report success without consuming (error recovery that stops at a
+        // token of the recovery set): going on would loop forever
+        loop {
+            let before = parser.nth_range(0).start;
+            if !f(parser, recovery) || parser.nth_range(0).start == before {
+                break;
+            }
         }
         true
     }
